@@ -421,12 +421,16 @@ class SymReal:
 
     # -- helpers
     def _bin(self, o, f):
+        if isinstance(o, float) and o != o:
+            return o  # NaN propagates
         ot = to_term(o)
         if ot is None:
             return NotImplemented
         return SymReal(f(self.t, ot))
 
     def _rbin(self, o, f):
+        if isinstance(o, float) and o != o:
+            return o
         ot = to_term(o)
         if ot is None:
             return NotImplemented
@@ -495,6 +499,8 @@ class SymReal:
         return SymReal(uf("pow", 2)(ot, s.t))
 
     def _cmp(s, o, f):
+        if isinstance(o, float) and o != o:
+            return False
         ot = to_term(o)
         if ot is None:
             return NotImplemented
@@ -604,6 +610,41 @@ class SymReal:
     @property
     def imag(s):
         return 0.0
+
+
+class SymNorm(SymReal):
+    """Euclidean norm of a symbolic vector: comparisons are decided on the squares (no sqrt)."""
+
+    __slots__ = ("sq",)
+
+    def __init__(self, sq_term):
+        self.sq = sq_term
+        r = uf("sqrt")(sq_term)
+        SymReal.__init__(self, r)
+        engine().assume(z3.And(r >= 0, r * r == sq_term), kind="axiom")
+
+    def _ncmp(self, o, strict, less):
+        ot = to_term(o)
+        if ot is None:
+            return NotImplemented
+        if less:  # norm < o  /  norm <= o
+            return SymBool(z3.And(ot > 0 if strict else ot >= 0, self.sq < ot * ot if strict else self.sq <= ot * ot))
+        # norm > o / norm >= o
+        return SymBool(z3.Or(ot < 0, self.sq > ot * ot if strict else self.sq >= ot * ot))
+
+    def __lt__(s, o):
+        return s._ncmp(o, True, True)
+
+    def __le__(s, o):
+        return s._ncmp(o, False, True)
+
+    def __gt__(s, o):
+        return s._ncmp(o, True, False)
+
+    def __ge__(s, o):
+        return s._ncmp(o, False, False)
+
+    __hash__ = SymReal.__hash__
 
 
 def _ipow(s, n):
